@@ -81,6 +81,107 @@ func (e *Engine) hasLemmas(o *Oblig) bool {
 	return false
 }
 
+// symbolsOf: declared symbols occurring in text (token scan).
+func (e *Engine) symbolsOf(text string, out map[string]bool) {
+	i := 0
+	for i < len(text) {
+		c := text[i]
+		if c == '|' {
+			j := strings.IndexByte(text[i+1:], '|')
+			if j < 0 {
+				return
+			}
+			tok := text[i : i+j+2]
+			if e.declared[tok] {
+				out[tok] = true
+			}
+			i += j + 2
+			continue
+		}
+		if c == '(' || c == ')' || c == ' ' || c == '\n' {
+			i++
+			continue
+		}
+		j := i
+		for j < len(text) && text[j] != '(' && text[j] != ')' && text[j] != ' ' && text[j] != '\n' {
+			j++
+		}
+		tok := text[i:j]
+		if e.declared[tok] {
+			out[tok] = true
+		}
+		i = j
+	}
+}
+
+// liteAssumptions selects the quantifier-free assumptions in the cone of influence of the goal
+// (allocation counters do not connect). Dropping assumptions is sound for proving.
+func (e *Engine) liteAssumptions(o *Oblig) map[int]bool {
+	cone := map[string]bool{}
+	e.symbolsOf(o.Guard.S, cone)
+	e.symbolsOf(o.Goal.S, cone)
+	n := o.NAssump
+	syms := make([]map[string]bool, n)
+	for i, a := range e.assumps[:n] {
+		if strings.Contains(a.T.S, "(forall ") || strings.Contains(a.T.S, "(exists ") {
+			continue
+		}
+		m := map[string]bool{}
+		e.symbolsOf(a.T.S, m)
+		syms[i] = m
+	}
+	keep := map[int]bool{}
+	isConnector := func(s string) bool {
+		return strings.HasPrefix(s, "alloc") || strings.HasPrefix(s, "L") && strings.Contains(s, ".alloc")
+	}
+	for changed := true; changed; {
+		changed = false
+		for i := 0; i < n; i++ {
+			if keep[i] || syms[i] == nil {
+				continue
+			}
+			hit := false
+			for s := range syms[i] {
+				if cone[s] && !isConnector(s) {
+					hit = true
+					break
+				}
+			}
+			if hit {
+				keep[i] = true
+				changed = true
+				for s := range syms[i] {
+					if !isConnector(s) {
+						cone[s] = true
+					}
+				}
+			}
+		}
+	}
+	// drop kept assumptions that only talk about connectors and Int regions
+	return keep
+}
+
+func (e *Engine) smtTextLite(o *Oblig) string {
+	keep := e.liteAssumptions(o)
+	var body strings.Builder
+	for _, d := range e.decls[:o.NDecl] {
+		body.WriteString(d)
+		body.WriteByte('\n')
+	}
+	for i, a := range e.assumps[:o.NAssump] {
+		if !keep[i] {
+			continue
+		}
+		body.WriteString("(assert ")
+		body.WriteString(a.T.S)
+		body.WriteString(")\n")
+	}
+	fmt.Fprintf(&body, "(assert %s)\n(assert (not %s))\n", o.Guard.S, o.Goal.S)
+	text := body.String()
+	return "(set-option :produce-models true)\n(set-logic ALL)\n" + e.preludeFor(text) + text + "(check-sat)\n"
+}
+
 func (e *Engine) smtTextV(o *Oblig, extra string, tail string, dropLemmas bool) string {
 	var body strings.Builder
 	for _, d := range e.decls[:o.NDecl] {
@@ -287,7 +388,17 @@ func solveAllF(results []*FuncResult, limits func(o *Oblig) (int, int), par int)
 				q, f := limits(j.o)
 				r := solveFile(file, q, f)
 				j.o.Res = &r
-				if !r.Proved(j.o) && !j.o.WantSat && f > 0 && j.e.hasLemmas(j.o) {
+				if !j.o.Res.Proved(j.o) && !j.o.WantSat && f > 0 && j.o.Res.Status != "sat" {
+					// attempt with the quantifier-free cone of influence only (sound: fewer assumptions)
+					file3 := filepath.Join(workDir, sanitizeFile(j.o.Name)+".lite.smt2")
+					os.WriteFile(file3, []byte(j.e.smtTextLite(j.o)), 0o644)
+					r3 := solveFile(file3, q, f)
+					if r3.Status == "unsat" {
+						r3.Solver += "(qf-cone)"
+						j.o.Res = &r3
+					}
+				}
+				if !j.o.Res.Proved(j.o) && !j.o.WantSat && f > 0 && j.e.hasLemmas(j.o) {
 					// second attempt without the (proved) ghost assertions: fewer quantified facts
 					file2 := filepath.Join(workDir, sanitizeFile(j.o.Name)+".nolemma.smt2")
 					os.WriteFile(file2, []byte(j.e.smtTextV(j.o, "", "", true)), 0o644)
